@@ -446,6 +446,7 @@ package plenccodec
 
 //@ func plenccodec.TimeCodec.Read
 //@   safety C04 C11
+//@   assigns[C10,C11] nothing
 //@   writes ptr 24
 //@   ensures[C03,C05] err == nil ==> n == len(data)
 //@   loop 1 invariant[C04] 0 <= offset && offset <= l && l == len(data)
@@ -454,6 +455,7 @@ package plenccodec
 
 //@ func plenccodec.TimeCompatCodec.Read
 //@   safety C04 C11
+//@   assigns[C10,C11] nothing
 //@   writes ptr 24
 //@   ensures[C03,C05] err == nil ==> n == len(data)
 //@   loop 1 invariant[C04] 0 <= offset && offset <= l && l == len(data)
@@ -462,6 +464,7 @@ package plenccodec
 
 //@ func plenccodec.BQTimestampCodec.Read
 //@   safety C04 C11
+//@   assigns[C10,C11] nothing
 //@   writes ptr 24
 //@   ensures[C04,C05] err == nil ==> 0 <= n && n <= len(data)
 
